@@ -87,6 +87,25 @@ def inner_config_source(F, ck):
                     break
             if bad:
                 break
+        if bad is None:
+            # ... nor decide anything by it: a branch on the builder's configuration (e.g. an early exit when the OUTER circuit uses
+            # no grinding) makes the verification of the inner proof depend on the outer configuration
+            for x in walk(fn.body):
+                if x.get('k') == 'If':
+                    for y in walk(x['c']):
+                        if y.get('k') == 'Field' and y.get('n') == 'config':
+                            b_ = y['e']
+                            while b_.get('k') in ('Ref', 'Un'):
+                                b_ = b_['e']
+                            if b_.get('k') == 'Local' and b_.get('n') == 'self' or ('CircuitBuilder' in (fn.ty(y['e']) or '')):
+                                class _E:
+                                    q = 'a branch condition'
+                                    def __init__(self, n): self.n = n
+                                    def loc(self): return self.n.get('s')
+                                bad = (_E(x), 'condition')
+                                break
+                    if bad:
+                        break
         ck.ob('R06.6', 'sizes:%s' % fn.qual, bad is None, 'nothing is sized from the outer configuration' if bad is None else
               'OUTER CONFIGURATION USED: %s, which is handed the inner circuit\'s configuration, passes a %s taken from the builder\'s own configuration to %s: when inner and outer configurations differ (e.g. another cap height) '
               'the targets created for the inner proof / verifier data have the wrong shape' % (fn.qual, bad[1], bad[0].q), bad[0].loc() if bad else None)
@@ -194,6 +213,10 @@ def run(F, ck, tier):
     ck.rule('R06.6', 'the in-circuit verifier is parameterised by the INNER circuit: every configuration-typed argument (FriConfig, FriParams, CircuitConfig, CommonCircuitData, StarkConfig) passed by an in-circuit '
                      'verifier function derives from one of its parameters, never from the outer builder\'s own configuration')
     inner_config_source(F, ck)
+    # ---- R06.9
+    ck.rule('R06.9', 'the proof targets created by add_virtual_proof have the leaf sizes of the FRI oracle table (polynomial counts; salt exactly for blinding oracles), compared as polynomials')
+    from . import lengths
+    lengths.target_leaves(F, ck, 'R06.9')
     # ---- R06.8
     ck.rule('R06.8', 'the in-circuit table polynomial pads like the native one: the symbolic interval of the padding count in get_lut_poly_circuit equals that of get_lut_poly')
     from . import c08
